@@ -34,7 +34,7 @@
    Non-vacuity: render_example (a two-vertex universe with a directed, an undirected and a
    self-loop link, all three renderings computed).                                              *)
 From Coq Require Import String Ascii List Lia Permutation Sorted.
-From EG Require Import Base Lemmas State Nbrs Trav Struct LinkProofs UniProofs Render.
+From EG Require Import Base Lemmas State Nbrs Trav Struct LinkProofs UniProofs LinkStep Render.
 Import ListNotations.
 
 (* ============================================================================================ *)
@@ -102,8 +102,9 @@ Section SortBy.
   Lemma sort_by_stable l k0 :
     filter (fun x => Nat.eqb (key x) k0) (sort_by key l) = filter (fun x => Nat.eqb (key x) k0) l.
   Proof.
-    induction l as [|x l IH]; cbn; [reflexivity|].
-    rewrite insert_by_filter, IH. destruct (Nat.eqb (key x) k0); reflexivity.
+    induction l as [|x l IH]; [reflexivity|].
+    change (sort_by key (x :: l)) with (insert_by key x (sort_by key l)).
+    rewrite insert_by_filter, IH. cbn [filter]. destruct (Nat.eqb (key x) k0); reflexivity.
   Qed.
 End SortBy.
 
@@ -146,12 +147,12 @@ Section PlainProofs.
   Lemma plain_lines_spec s vs : forall ls, plain_lines filt r key s vs = inl ls ->
     length ls = length vs /\
     forall i v, nth_error vs i = Some v ->
-      exists nbs, neighbors_pure filt s v Fwd UErr None = NOk nbs /\
+      exists nbs, neighbors_pure filt s v Fwd State.UErr None = NOk nbs /\
                   nth_error ls i = Some (plain_line r v (plain_nbs key nbs)).
   Proof.
     induction vs as [|w vs IH]; intros ls H; cbn in H.
     - inversion H; subst. split; [reflexivity|]. intros [|i] v Hi; discriminate.
-    - destruct (neighbors_pure filt s w Fwd UErr None) as [nbs|e] eqn:EN; [|discriminate].
+    - destruct (neighbors_pure filt s w Fwd State.UErr None) as [nbs|e] eqn:EN; [|discriminate].
       destruct (plain_lines filt r key s vs) as [ls0|e]; [|discriminate].
       inversion H; subst. destruct (IH ls0 eq_refl) as [HL HN]. split; [cbn; now rewrite HL|].
       intros [|i] v Hi; cbn in Hi.
@@ -165,7 +166,7 @@ Section PlainProofs.
     basic_render filt r key s u = POk (Some (join newline ls)) /\
     length ls = length (uv s u) /\
     forall i v, nth_error (plain_order key (uv s u)) i = Some v ->
-      exists nbs, neighbors_pure filt s v Fwd UErr None = NOk nbs /\
+      exists nbs, neighbors_pure filt s v Fwd State.UErr None = NOk nbs /\
                   nth_error ls i = Some (plain_line r v (plain_nbs key nbs)).
   Proof.
     intros NE H. destruct (plain_lines_spec _ _ _ H) as [HL HN].
@@ -206,13 +207,13 @@ Section PlainProofs.
 
   (* P5: errors *)
   Lemma plain_lines_err s vs e : plain_lines filt r key s vs = inr e <->
-    exists pre v post, vs = pre ++ v :: post /\
-      (forall w, In w pre -> exists nbs, neighbors_pure filt s w Fwd UErr None = NOk nbs) /\
-      neighbors_pure filt s v Fwd UErr None = NErr e.
+    exists pre v post, vs = (pre ++ v :: post)%list /\
+      (forall w, In w pre -> exists nbs, neighbors_pure filt s w Fwd State.UErr None = NOk nbs) /\
+      neighbors_pure filt s v Fwd State.UErr None = NErr e.
   Proof.
     induction vs as [|w vs IH]; cbn.
     - split; [discriminate|]. intros (pre & v & post & H & _). destruct pre; discriminate.
-    - destruct (neighbors_pure filt s w Fwd UErr None) as [nbs|e0] eqn:EN.
+    - destruct (neighbors_pure filt s w Fwd State.UErr None) as [nbs|e0] eqn:EN.
       + destruct (plain_lines filt r key s vs) as [ls|e1].
         * split; [discriminate|]. intros (pre & v & post & H & Hpre & Hv).
           destruct pre as [|p pre]; cbn in H; inversion H; subst; [congruence|].
@@ -236,16 +237,16 @@ Section PlainProofs.
   Qed.
 
   Theorem basic_render_error_iff s u e : basic_render filt r key s u = PErr e <->
-    exists pre v post, plain_order key (uv s u) = pre ++ v :: post /\
-      (forall w, In w pre -> exists nbs, neighbors_pure filt s w Fwd UErr None = NOk nbs) /\
-      neighbors_pure filt s v Fwd UErr None = NErr e.
+    exists pre v post, plain_order key (uv s u) = (pre ++ v :: post)%list /\
+      (forall w, In w pre -> exists nbs, neighbors_pure filt s w Fwd State.UErr None = NOk nbs) /\
+      neighbors_pure filt s v Fwd State.UErr None = NErr e.
   Proof.
     rewrite <- plain_lines_err. unfold basic_render. destruct (uv s u) as [|v0 vs] eqn:EU.
     - split; [discriminate|]. unfold plain_order. destruct key; cbn; discriminate.
     - destruct (plain_lines filt r key s (plain_order key (v0 :: vs))) as [ls|e1]; split; congruence.
   Qed.
   Theorem basic_render_error s u e : basic_render filt r key s u = PErr e ->
-    uv s u <> [] /\ exists v, In v (uv s u) /\ neighbors_pure filt s v Fwd UErr None = NErr e.
+    uv s u <> [] /\ exists v, In v (uv s u) /\ neighbors_pure filt s v Fwd State.UErr None = NErr e.
   Proof.
     intro H. apply basic_render_error_iff in H. destruct H as (pre & v & post & HO & _ & Hv).
     assert (Hin : In v (uv s u)).
@@ -253,7 +254,7 @@ Section PlainProofs.
     split; [intro E; rewrite E in Hin; exact Hin|]. now exists v.
   Qed.
   Theorem basic_render_error_some_iff s u : (exists e, basic_render filt r key s u = PErr e) <->
-    exists v e, In v (uv s u) /\ neighbors_pure filt s v Fwd UErr None = NErr e.
+    exists v e, In v (uv s u) /\ neighbors_pure filt s v Fwd State.UErr None = NErr e.
   Proof.
     split.
     - intros [e H]. apply basic_render_error in H. destruct H as (_ & v & Hv & He). now exists v, e.
@@ -270,3 +271,824 @@ Local Close Scope string_scope.
 
 Example pinned_line_eats_arrow : plain_line_pinned (fun _ => "z"%string) 0 [] = "z -"%string.
 Proof. reflexivity. Qed.
+
+(* ============================================================================================ *)
+(* Part V — pyvis                                                                               *)
+(* ============================================================================================ *)
+Lemma enum_from_fst {A} (l : list A) : forall k, map fst (enum_from k l) = seq k (length l).
+Proof. induction l as [|x l IH]; intro k; cbn; [reflexivity | now rewrite IH]. Qed.
+Lemma enum_from_In {A} (l : list A) : forall k i x,
+  In (i, x) (enum_from k l) <-> k <= i /\ nth_error l (i - k) = Some x.
+Proof.
+  induction l as [|y l IH]; intros k i x; cbn.
+  - split; [tauto|]. intros [_ H]. destruct (i - k); discriminate.
+  - rewrite IH. split.
+    + intros [E|[H1 H2]].
+      * inversion E; subst. split; [lia|]. now rewrite Nat.sub_diag.
+      * split; [lia|]. replace (i - k) with (S (i - S k)) by lia. exact H2.
+    + intros [H1 H2]. destruct (Nat.eq_dec i k) as [->|N].
+      * left. rewrite Nat.sub_diag in H2. cbn in H2. congruence.
+      * right. split; [lia|]. replace (i - k) with (S (i - S k)) in H2 by lia. exact H2.
+Qed.
+Lemma enum_from_In0 {A} (l : list A) i x : In (i, x) (enum_from 0 l) <-> nth_error l i = Some x.
+Proof. rewrite enum_from_In, Nat.sub_0_r. split; [tauto | split; [lia|assumption]]. Qed.
+
+Lemma index_of_nth x l : forall k j, index_of x l k = Some j -> k <= j /\ nth_error l (j - k) = Some x.
+Proof.
+  induction l as [|y l IH]; intros k j H; cbn in H; [discriminate|].
+  destruct (Nat.eqb_spec x y) as [->|N].
+  - inversion H; subst. split; [lia|]. now rewrite Nat.sub_diag.
+  - apply IH in H. destruct H as [H1 H2]. split; [lia|]. replace (j - k) with (S (j - S k)) by lia. exact H2.
+Qed.
+Lemma index_of_nodup x l : NoDup l -> forall j k, nth_error l j = Some x -> index_of x l k = Some (k + j).
+Proof.
+  induction 1 as [|y l Hy ND IH]; intros j k H; [destruct j; discriminate|].
+  cbn. destruct j as [|j]; cbn in H.
+  - inversion H; subst. rewrite Nat.eqb_refl. f_equal. lia.
+  - destruct (Nat.eqb_spec x y) as [->|N].
+    + exfalso. apply Hy. eapply nth_error_In; eauto.
+    + rewrite (IH j (S k) H). f_equal. lia.
+Qed.
+Lemma pv_index_nth verts o j : pv_index verts o = Some j -> exists v, o = Some v /\ nth_error verts j = Some v.
+Proof.
+  destruct o as [v|]; [|discriminate]. cbn. intro H. apply index_of_nth in H.
+  exists v. split; [reflexivity|]. now rewrite Nat.sub_0_r in H.
+Qed.
+Lemma pv_index_nodup verts v j : NoDup verts -> nth_error verts j = Some v -> pv_index verts (Some v) = Some j.
+Proof. intros ND H. cbn. now rewrite (index_of_nodup v verts ND j 0 H). Qed.
+
+Definition ids (n : pnet) : list nat := map fst (pnodes n).
+
+Definition add_nodes (l : list (nat * nat)) (n : pnet) : pnet :=
+  fold_left (fun n iv => add_node n (fst iv) (snd iv)) l n.
+Lemma add_nodes_gen (verts : list nat) : forall k n, (forall i, In i (ids n) -> i < k) ->
+  pnodes (add_nodes (enum_from k verts) n) = pnodes n ++ enum_from k verts /\
+  pedges (add_nodes (enum_from k verts) n) = pedges n /\
+  pdirected (add_nodes (enum_from k verts) n) = pdirected n.
+Proof.
+  induction verts as [|x verts IH]; intros k n Hlt.
+  - cbn. now rewrite app_nil_r.
+  - change (add_nodes (enum_from k (x :: verts)) n) with (add_nodes (enum_from (S k) verts) (add_node n k x)).
+    assert (E : add_node n k x = {| pnodes := pnodes n ++ [(k, x)]; pedges := pedges n; pdirected := pdirected n |}).
+    { unfold add_node. fold (ids n). replace (memn k (ids n)) with false; [reflexivity|].
+      symmetry. apply memn_nIn. intro H. apply Hlt in H. lia. }
+    rewrite E. set (n1 := {| pnodes := pnodes n ++ [(k, x)]; pedges := pedges n; pdirected := pdirected n |}).
+    destruct (IH (S k) n1) as (H1 & H2 & H3).
+    { intros i Hi. unfold ids, n1 in Hi. cbn in Hi. rewrite map_app in Hi. apply in_app_or in Hi.
+      destruct Hi as [Hi|Hi]; [apply Hlt in Hi; lia | cbn in Hi; lia]. }
+    rewrite H1, H2, H3. unfold n1. cbn. now rewrite <- app_assoc.
+Qed.
+
+Lemma add_edge_spec n i j :
+  match add_edge n i j with
+  | None => memn i (ids n) && memn j (ids n) = false
+  | Some n' => memn i (ids n) && memn j (ids n) = true /\ pnodes n' = pnodes n /\ pdirected n' = pdirected n /\
+      ((pdirected n = false /\ pedges n' = pedges n /\
+        exists f t x, In (f, t, x) (pedges n) /\ ((i = t /\ j = f) \/ (i = f /\ j = t)))
+       \/ pedges n' = pedges n ++ [(i, j, pdirected n)])
+  end.
+Proof.
+  unfold add_edge. fold (ids n). destruct (memn i (ids n) && memn j (ids n)); cbn [negb]; [|reflexivity].
+  match goal with |- context [existsb ?f (pedges n)] => destruct (negb (pdirected n) && existsb f (pedges n)) eqn:E end.
+  - split; [reflexivity|]. split; [reflexivity|]. split; [reflexivity|]. left.
+    apply andb_true_iff in E. destruct E as [E1 E2]. apply negb_true_iff in E1.
+    split; [exact E1|]. split; [reflexivity|].
+    apply existsb_exists in E2. destruct E2 as ([[f t] x] & Hin & Hx).
+    exists f, t, x. split; [exact Hin|].
+    apply orb_true_iff in Hx. destruct Hx as [Hx|Hx]; apply andb_true_iff in Hx; destruct Hx as [X Y];
+      apply Nat.eqb_eq in X; apply Nat.eqb_eq in Y; [left|right]; now split.
+  - cbn. split; [reflexivity|]. split; [reflexivity|]. split; [reflexivity|]. now right.
+Qed.
+
+Section Pyvis.
+  Variable s : state.
+  Variable verts : list nat.
+
+  (* one iteration of the edge loop; None = IndexError *)
+  Definition pv_step (i vert e : nat) (n : pnet) : option pnet :=
+    match lv2 s e, lv1 s e with
+    | None, _ | _, None => None
+    | Some b, Some a =>
+        if oeqb (Some vert) b && negb (oeqb (Some vert) a) then Some n
+        else match other s e (Some vert) with
+             | OErr => None
+             | OVal o =>
+                 match pv_index verts o with
+                 | None => Some n
+                 | Some j => let n1 := set_directed n (is_directed (kd s e)) in
+                             match add_edge n1 i j with Some n2 => Some n2 | None => Some n1 end
+                 end
+             end
+    end.
+  Lemma pv_edges_cons i vert e rest n :
+    pv_edges s verts i vert (e :: rest) n =
+    match pv_step i vert e n with Some n1 => pv_edges s verts i vert rest n1 | None => VErr IndexError end.
+  Proof.
+    unfold pv_step. cbn [pv_edges]. destruct (lv2 s e), (lv1 s e); try reflexivity.
+    destruct (_ && _); try reflexivity. destruct (other s e (Some vert)); try reflexivity.
+    destruct (pv_index verts o1); try reflexivity. destruct (add_edge _ i n0); reflexivity.
+  Qed.
+
+  Lemma pv_step_spec i vert e n n' : pv_step i vert e n = Some n' ->
+    pnodes n' = pnodes n /\
+    exists a b, lv1 s e = Some a /\ lv2 s e = Some b /\
+     ((pedges n' = pedges n /\ (a <> Some vert \/ pv_index verts b = None)) \/
+      (exists vj j, a = Some vert /\ b = Some vj /\ pv_index verts (Some vj) = Some j /\
+         ((pedges n' = pedges n /\ memn i (ids n) && memn j (ids n) = false) \/
+          (pedges n' = pedges n /\ is_directed (kd s e) = false /\
+           exists f t x, In (f, t, x) (pedges n) /\ ((i = t /\ j = f) \/ (i = f /\ j = t))) \/
+          pedges n' = pedges n ++ [(i, j, is_directed (kd s e))]))).
+  Proof.
+    unfold pv_step, other. destruct (lv2 s e) as [b|] eqn:E2; [|discriminate].
+    destruct (lv1 s e) as [a|] eqn:E1; [|discriminate].
+    destruct (oeqb (Some vert) a) eqn:Ea.
+    - apply oeqb_eq in Ea. subst a. rewrite andb_false_r.
+      destruct (pv_index verts b) as [j|] eqn:Ej.
+      + destruct b as [vj|]; [|discriminate].
+        pose proof (add_edge_spec (set_directed n (is_directed (kd s e))) i j) as AE.
+        destruct (add_edge (set_directed n (is_directed (kd s e))) i j) as [n2|].
+        * intros [= <-]. destruct AE as (M & N & _ & C). cbn in N, C. split; [exact N|].
+          exists (Some vert), (Some vj). split; [reflexivity|]. split; [reflexivity|]. right.
+          exists vj, j. split; [reflexivity|]. split; [reflexivity|]. split; [exact Ej|].
+          right. destruct C as [(D & P & X)|P]; [left|right]; auto.
+        * intros [= <-]. cbn. split; [reflexivity|].
+          exists (Some vert), (Some vj). split; [reflexivity|]. split; [reflexivity|]. right.
+          exists vj, j. split; [reflexivity|]. split; [reflexivity|]. split; [exact Ej|]. left.
+          split; [reflexivity|exact AE].
+      + intros [= <-]. split; [reflexivity|]. exists (Some vert), b. split; [reflexivity|]. split; [reflexivity|].
+        left. split; [reflexivity|]. now right.
+    - assert (Na : a <> Some vert) by (intro X; subst a; rewrite oeqb_refl in Ea; discriminate).
+      destruct (oeqb (Some vert) b) eqn:Eb; cbn [negb andb].
+      + intros [= <-]. split; [reflexivity|]. exists a, b. split; [reflexivity|]. split; [reflexivity|].
+        left. split; [reflexivity|]. now left.
+      + cbn [pv_index]. intros [= <-]. split; [reflexivity|]. exists a, b. split; [reflexivity|]. split; [reflexivity|].
+        left. split; [reflexivity|]. now left.
+  Qed.
+
+  Lemma pv_step_mono i vert e n n' : pv_step i vert e n = Some n' ->
+    pnodes n' = pnodes n /\ incl (pedges n) (pedges n').
+  Proof.
+    intro H. apply pv_step_spec in H. destruct H as (N & a & b & _ & _ & C). split; [exact N|].
+    destruct C as [[P _]|(vj & j & _ & _ & _ & [[P _]|[(P & _)|P]])]; rewrite P;
+      try apply incl_refl. apply incl_appl, incl_refl.
+  Qed.
+  Lemma pv_edges_mono i vert ls : forall n n', pv_edges s verts i vert ls n = VOk n' ->
+    pnodes n' = pnodes n /\ incl (pedges n) (pedges n').
+  Proof.
+    induction ls as [|e ls IH]; intros n n' H.
+    - cbn in H. inversion H; subst. split; [reflexivity | apply incl_refl].
+    - rewrite pv_edges_cons in H. destruct (pv_step i vert e n) as [n1|] eqn:E1; [|discriminate].
+      apply pv_step_mono in E1. apply IH in H. destruct E1 as [A B], H as [C D].
+      split; [congruence | eapply incl_tran; eauto].
+  Qed.
+  Lemma pv_loop_mono iv : forall n n', pv_loop s verts iv n = VOk n' ->
+    pnodes n' = pnodes n /\ incl (pedges n) (pedges n').
+  Proof.
+    induction iv as [|[i vert] iv IH]; intros n n' H; cbn in H.
+    - inversion H; subst. split; [reflexivity | apply incl_refl].
+    - destruct (pv_edges s verts i vert (vl s vert) n) as [n1|] eqn:E1; [|discriminate].
+      apply pv_edges_mono in E1. apply IH in H. destruct E1 as [A B], H as [C D].
+      split; [congruence | eapply incl_tran; eauto].
+  Qed.
+
+  (* ---- V2 ---- *)
+  Definition edge_ok (x : nat * nat * bool) : Prop :=
+    exists vi vj e, nth_error verts (fst (fst x)) = Some vi /\ nth_error verts (snd (fst x)) = Some vj /\
+      In e (vl s vi) /\ snd x = is_directed (kd s e) /\
+      lv1 s e = Some (Some vi) /\ lv2 s e = Some (Some vj).
+
+  Lemma pv_step_ok i vert e n n' : nth_error verts i = Some vert -> In e (vl s vert) ->
+    pv_step i vert e n = Some n' -> Forall edge_ok (pedges n) -> Forall edge_ok (pedges n').
+  Proof.
+    intros Hi He H F. apply pv_step_spec in H. destruct H as (_ & a & b & E1 & E2 & C).
+    destruct C as [[P _]|(vj & j & -> & -> & Ej & [[P _]|[(P & _)|P]])]; rewrite P; auto.
+    apply Forall_app. split; [exact F|]. constructor; [|constructor].
+    apply pv_index_nth in Ej. destruct Ej as (v & [= <-] & Hj).
+    exists vert, vj, e. cbn. repeat split; auto.
+  Qed.
+  Lemma pv_edges_ok i vert : nth_error verts i = Some vert ->
+    forall ls n n', (forall e, In e ls -> In e (vl s vert)) ->
+    pv_edges s verts i vert ls n = VOk n' -> Forall edge_ok (pedges n) -> Forall edge_ok (pedges n').
+  Proof.
+    intro Hi. induction ls as [|e ls IH]; intros n n' Hs H F.
+    - cbn in H. now inversion H; subst.
+    - rewrite pv_edges_cons in H. destruct (pv_step i vert e n) as [n1|] eqn:E1; [|discriminate].
+      eapply IH; [| exact H |].
+      + intros e0 H0. apply Hs. now right.
+      + eapply pv_step_ok; eauto. apply Hs. now left.
+  Qed.
+  Lemma pv_loop_ok iv : (forall i v, In (i, v) iv -> nth_error verts i = Some v) ->
+    forall n n', pv_loop s verts iv n = VOk n' -> Forall edge_ok (pedges n) -> Forall edge_ok (pedges n').
+  Proof.
+    induction iv as [|[i vert] iv IH]; intros Hiv n n' H F; cbn in H.
+    - now inversion H; subst.
+    - destruct (pv_edges s verts i vert (vl s vert) n) as [n1|] eqn:E1; [|discriminate].
+      eapply IH; [| exact H |].
+      + intros i0 v0 H0. apply Hiv. now right.
+      + eapply pv_edges_ok; [apply Hiv; now left | | exact E1 | exact F]. auto.
+  Qed.
+End Pyvis.
+
+Lemma make_pyvis_net_unfold s u :
+  let verts := uv s u in
+  let n0 := fold_left (fun n iv => add_node n (fst iv) (snd iv)) (enum_from 0 verts) pnet0 in
+  make_pyvis_net s u = pv_loop s verts (enum_from 0 verts) n0 /\
+  pnodes n0 = enum_from 0 verts /\ pedges n0 = [] /\ pdirected n0 = false.
+Proof.
+  cbn zeta. split; [reflexivity|].
+  destruct (add_nodes_gen (uv s u) 0 pnet0) as (A & B & C); [intros i []|]. cbn in A, B, C. auto.
+Qed.
+
+Theorem pyvis_nodes_gen s u n : make_pyvis_net s u = VOk n -> pnodes n = enum_from 0 (uv s u).
+Proof.
+  destruct (make_pyvis_net_unfold s u) as (-> & A & _). intro H. apply pv_loop_mono in H.
+  destruct H as [H _]. congruence.
+Qed.
+Theorem pyvis_nodes s u n : NoDup (uv s u) -> make_pyvis_net s u = VOk n -> pnodes n = enum_from 0 (uv s u).
+Proof. intros _. apply pyvis_nodes_gen. Qed.
+
+Theorem pyvis_edges_oriented s u n : make_pyvis_net s u = VOk n ->
+  forall i j arr, In (i, j, arr) (pedges n) ->
+  exists vi vj e, nth_error (uv s u) i = Some vi /\ nth_error (uv s u) j = Some vj /\
+    In e (vl s vi) /\ arr = is_directed (kd s e) /\
+    lv1 s e = Some (Some vi) /\ lv2 s e = Some (Some vj).
+Proof.
+  destruct (make_pyvis_net_unfold s u) as (-> & _ & B & _). intros H i j arr Hin.
+  eapply pv_loop_ok in H.
+  - rewrite Forall_forall in H. apply (H _ Hin).
+  - intros i0 v0. apply enum_from_In0.
+  - rewrite B. constructor.
+Qed.
+
+Lemma other_v1 s e a b : lv1 s e = Some a -> lv2 s e = Some b -> other s e a = OVal b.
+Proof. unfold other. intros -> ->. now rewrite oeqb_refl. Qed.
+
+Theorem pyvis_edges_are_real s u n : NoDup (uv s u) -> make_pyvis_net s u = VOk n ->
+  forall i j arr, In (i, j, arr) (pedges n) ->
+  exists vi vj e, nth_error (uv s u) i = Some vi /\ nth_error (uv s u) j = Some vj /\
+    In e (vl s vi) /\ other s e (Some vi) = OVal (Some vj) /\ arr = is_directed (kd s e) /\
+    (arr = true -> lv1 s e = Some (Some vi) /\ lv2 s e = Some (Some vj)).
+Proof.
+  intros _ H i j arr Hin. destruct (pyvis_edges_oriented s u n H i j arr Hin) as (vi & vj & e & A & B & C & D & E & F).
+  exists vi, vj, e. repeat split; auto. now apply other_v1.
+Qed.
+
+Theorem pyvis_no_outside_vertex s u n : NoDup (uv s u) -> make_pyvis_net s u = VOk n ->
+  (forall i v, In (i, v) (pnodes n) -> i < length (uv s u) /\ nth_error (uv s u) i = Some v) /\
+  (forall i j arr, In (i, j, arr) (pedges n) -> i < length (uv s u) /\ j < length (uv s u)).
+Proof.
+  intros ND H. split.
+  - intros i v Hin. rewrite (pyvis_nodes_gen s u n H) in Hin. apply enum_from_In0 in Hin.
+    split; [|exact Hin]. apply nth_error_Some. congruence.
+  - intros i j arr Hin. destruct (pyvis_edges_oriented s u n H i j arr Hin) as (vi & vj & e & A & B & _).
+    split; apply nth_error_Some; congruence.
+Qed.
+
+(* ---- V4 ---- *)
+Definition joined (n : pnet) (i j : nat) : Prop :=
+  exists arr, In (i, j, arr) (pedges n) \/ In (j, i, arr) (pedges n).
+Lemma joined_sym n i j : joined n i j -> joined n j i.
+Proof. intros [a [H|H]]; exists a; tauto. Qed.
+Lemma joined_mono n n' i j : incl (pedges n) (pedges n') -> joined n i j -> joined n' i j.
+Proof. intros I [a [H|H]]; exists a; [left|right]; now apply I. Qed.
+
+Lemma memn_seq i k : i < k -> memn i (seq 0 k) = true.
+Proof. intro H. apply memn_In, in_seq. lia. Qed.
+
+Definition edge_dec : forall x y : nat * nat * bool, {x = y} + {x <> y}.
+Proof. decide equality; [apply Bool.bool_dec | decide equality; apply Nat.eq_dec]. Defined.
+Lemma count_single (x y : nat * nat * bool) : count_occ edge_dec [x] y = if edge_dec x y then 1 else 0.
+Proof. reflexivity. Qed.
+
+(* e is a directed link from vi to vj *)
+Definition dir_link (s : state) (vi vj e : nat) : bool :=
+  is_directed (kd s e) && is_end1 s e vi && is_end2 s e vj.
+Lemma dir_link_spec s vi vj e : dir_link s vi vj e = true <->
+  is_directed (kd s e) = true /\ lv1 s e = Some (Some vi) /\ lv2 s e = Some (Some vj).
+Proof.
+  unfold dir_link, is_end1, is_end2. rewrite !andb_true_iff.
+  destruct (lv1 s e) as [a|], (lv2 s e) as [b|]; rewrite ?oeqb_eq;
+    split; intros [[A B] C] || intros (A & B & C); try discriminate; repeat split; congruence.
+Qed.
+
+Lemma list_sum_cons x l : list_sum (x :: l) = x + list_sum l.
+Proof. reflexivity. Qed.
+
+Section Pyvis2.
+  Variable s : state.
+  Variable verts : list nat.
+  Hypothesis ND : NoDup verts.
+
+  Lemma pv_step_joined i vi j vj e n n' :
+    nth_error verts i = Some vi -> nth_error verts j = Some vj -> ids n = seq 0 (length verts) ->
+    lv1 s e = Some (Some vi) -> lv2 s e = Some (Some vj) ->
+    pv_step s verts i vi e n = Some n' -> joined n' i j.
+  Proof.
+    intros Hi Hj Hn E1 E2 H. apply pv_step_spec in H. destruct H as (_ & a & b & A & B & C).
+    assert (a = Some vi) by congruence. assert (b = Some vj) by congruence. subst a b.
+    pose proof (pv_index_nodup verts vj j ND Hj) as PJ.
+    destruct C as [[_ [X|X]]|(vj' & j' & _ & [= <-] & Ej & C)]; [congruence | congruence |].
+    assert (j' = j) by congruence. subst j'.
+    destruct C as [[_ M]|[(P & _ & f & t & x & Hin & [[-> ->]|[-> ->]])|P]].
+    - rewrite Hn, !memn_seq in M; [discriminate| |]; apply nth_error_Some; congruence.
+    - exists x. right. now rewrite P.
+    - exists x. left. now rewrite P.
+    - exists (is_directed (kd s e)). left. rewrite P. apply in_or_app. right. now left.
+  Qed.
+  Lemma pv_edges_joined i vi j vj e :
+    nth_error verts i = Some vi -> nth_error verts j = Some vj ->
+    lv1 s e = Some (Some vi) -> lv2 s e = Some (Some vj) ->
+    forall ls n n', In e ls -> ids n = seq 0 (length verts) ->
+    pv_edges s verts i vi ls n = VOk n' -> joined n' i j.
+  Proof.
+    intros Hi Hj E1 E2. induction ls as [|e0 ls IH]; intros n n' Hin Hn H; [destruct Hin|].
+    rewrite pv_edges_cons in H. destruct (pv_step s verts i vi e0 n) as [n1|] eqn:S1; [|discriminate].
+    destruct Hin as [->|Hin].
+    - eapply joined_mono; [apply (pv_edges_mono _ _ _ _ _ _ _ H)|]. eapply pv_step_joined; eauto.
+    - apply (IH n1 n' Hin); [|exact H]. apply pv_step_mono in S1. unfold ids in *. destruct S1 as [-> _]. exact Hn.
+  Qed.
+  Lemma pv_loop_joined i vi j vj e :
+    nth_error verts i = Some vi -> nth_error verts j = Some vj ->
+    lv1 s e = Some (Some vi) -> lv2 s e = Some (Some vj) -> In e (vl s vi) ->
+    forall iv n n', In (i, vi) iv -> ids n = seq 0 (length verts) ->
+    pv_loop s verts iv n = VOk n' -> joined n' i j.
+  Proof.
+    intros Hi Hj E1 E2 He. induction iv as [|[i0 v0] iv IH]; intros n n' Hin Hn H; [destruct Hin|].
+    cbn in H. destruct (pv_edges s verts i0 v0 (vl s v0) n) as [n1|] eqn:S1; [|discriminate].
+    destruct Hin as [[= -> ->]|Hin].
+    - eapply joined_mono; [apply (pv_loop_mono _ _ _ _ _ H)|]. eapply pv_edges_joined; eauto.
+    - apply (IH n1 n' Hin); [|exact H]. apply pv_edges_mono in S1. unfold ids in *. destruct S1 as [-> _]. exact Hn.
+  Qed.
+
+  (* ---- counting arrowed edges i0 -> j0 ---- *)
+  Variables (i0 j0 vi0 vj0 : nat).
+  Hypothesis Hi0 : nth_error verts i0 = Some vi0.
+  Hypothesis Hj0 : nth_error verts j0 = Some vj0.
+  Let cnt (n : pnet) : nat := count_occ edge_dec (pedges n) (i0, j0, true).
+
+  Lemma pv_step_count i vert e n n' :
+    nth_error verts i = Some vert -> ids n = seq 0 (length verts) ->
+    pv_step s verts i vert e n = Some n' ->
+    cnt n' = cnt n + (if Nat.eqb i i0 && dir_link s vi0 vj0 e then 1 else 0).
+  Proof.
+    intros Hi Hn H. apply pv_step_spec in H. destruct H as (_ & a & b & A & B & C). unfold cnt.
+    pose proof (pv_index_nodup verts vj0 j0 ND Hj0) as PJ.
+    destruct (Nat.eqb i i0 && dir_link s vi0 vj0 e) eqn:G.
+    - apply andb_true_iff in G. destruct G as [G1 G2]. apply Nat.eqb_eq in G1. subst i0.
+      assert (vert = vi0) by congruence. subst vi0.
+      apply dir_link_spec in G2. destruct G2 as (D & L1 & L2).
+      assert (a = Some vert) by congruence. assert (b = Some vj0) by congruence. subst a b.
+      destruct C as [[_ [X|X]]|(vj' & j' & _ & [= <-] & Ej & C)]; [congruence | congruence |].
+      assert (j' = j0) by congruence. subst j'.
+      destruct C as [[_ M]|[(_ & D' & _)|P]].
+      + rewrite Hn, !memn_seq in M; [discriminate| |]; apply nth_error_Some; congruence.
+      + congruence.
+      + rewrite P, D, count_occ_app, count_single. destruct (edge_dec (i, j0, true) (i, j0, true)); [reflexivity|congruence].
+    - rewrite Nat.add_0_r.
+      destruct C as [[-> _]|(vj' & j' & -> & -> & Ej & [[-> _]|[(-> & _)|P]])]; try reflexivity.
+      rewrite P, count_occ_app, count_single.
+      destruct (edge_dec (i, j', is_directed (kd s e)) (i0, j0, true)) as [E|_]; [|lia].
+      exfalso. inversion E as [[X Y Z]]. subst i j'. assert (vert = vi0) by congruence. subst vi0.
+      apply pv_index_nth in Ej. destruct Ej as (w & [= <-] & Hw). assert (vj' = vj0) by congruence. subst vj'.
+      rewrite Nat.eqb_refl in G. cbn in G.
+      assert (T : dir_link s vert vj0 e = true) by (apply dir_link_spec; auto). congruence.
+  Qed.
+  Lemma pv_edges_count i vert : nth_error verts i = Some vert ->
+    forall ls n n', ids n = seq 0 (length verts) -> pv_edges s verts i vert ls n = VOk n' ->
+    cnt n' = cnt n + (if Nat.eqb i i0 then length (filter (dir_link s vi0 vj0) ls) else 0).
+  Proof.
+    intro Hi. induction ls as [|e ls IH]; intros n n' Hn H.
+    - cbn in H. inversion H; subst. destruct (Nat.eqb i i0); cbn [filter length]; apply plus_n_O.
+    - rewrite pv_edges_cons in H. destruct (pv_step s verts i vert e n) as [n1|] eqn:S1; [|discriminate].
+      pose proof (pv_step_count _ _ _ _ _ Hi Hn S1) as C1.
+      apply pv_step_mono in S1. destruct S1 as [N1 _].
+      rewrite (IH n1 n') by (unfold ids in *; congruence || exact H). rewrite C1.
+      cbn [filter]. destruct (Nat.eqb i i0); cbn [andb]; [|lia].
+      destruct (dir_link s vi0 vj0 e); cbn [length]; lia.
+  Qed.
+  Let g (iv : nat * nat) : nat :=
+    if Nat.eqb (fst iv) i0 then length (filter (dir_link s vi0 vj0) (vl s (snd iv))) else 0.
+  Lemma pv_loop_count iv : (forall i v, In (i, v) iv -> nth_error verts i = Some v) ->
+    forall n n', ids n = seq 0 (length verts) -> pv_loop s verts iv n = VOk n' ->
+    cnt n' = cnt n + list_sum (map g iv).
+  Proof.
+    induction iv as [|[i vert] iv IH]; intros Hiv n n' Hn H; cbn in H.
+    - inversion H; subst. cbn. lia.
+    - destruct (pv_edges s verts i vert (vl s vert) n) as [n1|] eqn:S1; [|discriminate].
+      pose proof (pv_edges_count i vert (Hiv _ _ (or_introl eq_refl)) _ _ _ Hn S1) as C1.
+      apply pv_edges_mono in S1. destruct S1 as [N1 _].
+      rewrite (IH (fun i v H => Hiv i v (or_intror H)) n1 n') by (unfold ids in *; congruence || exact H).
+      rewrite C1. change (map g ((i, vert) :: iv)) with (g (i, vert) :: map g iv).
+      change (list_sum (g (i, vert) :: map g iv)) with (g (i, vert) + list_sum (map g iv)).
+      unfold g at 2. cbn [fst snd]. lia.
+  Qed.
+  Lemma sum_g_late l : forall k, i0 < k -> list_sum (map g (enum_from k l)) = 0.
+  Proof.
+    induction l as [|x l IH]; intros k Hk; cbn [enum_from map]; [reflexivity|]. rewrite list_sum_cons.
+    rewrite IH by lia. unfold g. cbn [fst snd]. destruct (Nat.eqb_spec k i0); lia.
+  Qed.
+  Lemma sum_g_at l : forall k, k <= i0 -> nth_error l (i0 - k) = Some vi0 ->
+    list_sum (map g (enum_from k l)) = length (filter (dir_link s vi0 vj0) (vl s vi0)).
+  Proof.
+    induction l as [|x l IH]; intros k Hk Hn; [destruct (i0 - k); discriminate|].
+    cbn [enum_from map]. rewrite list_sum_cons. unfold g at 1. cbn [fst snd].
+    destruct (Nat.eqb_spec k i0) as [->|N].
+    - rewrite Nat.sub_diag in Hn. cbn in Hn. inversion Hn; subst. rewrite sum_g_late by lia. lia.
+    - rewrite IH; [lia | lia |]. replace (i0 - k) with (S (i0 - S k)) in Hn by lia. exact Hn.
+  Qed.
+End Pyvis2.
+
+Lemma other_some_inv s e vi vj : other s e (Some vi) = OVal (Some vj) ->
+  (lv1 s e = Some (Some vi) /\ lv2 s e = Some (Some vj)) \/
+  (lv1 s e = Some (Some vj) /\ lv2 s e = Some (Some vi)).
+Proof.
+  unfold other. destruct (lv1 s e) as [a|]; [|discriminate].
+  destruct (oeqb (Some vi) a) eqn:Ea.
+  - apply oeqb_eq in Ea. subst a. destruct (lv2 s e) as [b|]; [|discriminate]. intros [= ->]. now left.
+  - destruct (lv2 s e) as [b|]; [|discriminate]. destruct (oeqb (Some vi) b) eqn:Eb; [|discriminate].
+    apply oeqb_eq in Eb. subst b. intros [= ->]. now right.
+Qed.
+
+Lemma make_pyvis_ids s u : ids (add_nodes (enum_from 0 (uv s u)) pnet0) = seq 0 (length (uv s u)).
+Proof.
+  destruct (add_nodes_gen (uv s u) 0 pnet0) as (A & _); [intros i []|].
+  unfold ids. rewrite A. cbn. apply enum_from_fst.
+Qed.
+
+Theorem pyvis_every_internal_link_joined_assoc s u n :
+  assoc s -> NoDup (uv s u) -> make_pyvis_net s u = VOk n ->
+  forall i j vi vj e, nth_error (uv s u) i = Some vi -> nth_error (uv s u) j = Some vj ->
+    In e (vl s vi) -> other s e (Some vi) = OVal (Some vj) ->
+    exists a, In (i, j, a) (pedges n) \/ In (j, i, a) (pedges n).
+Proof.
+  intros AS ND H i j vi vj e Hi Hj He Ho. change (joined n i j).
+  unfold make_pyvis_net in H. fold (add_nodes (enum_from 0 (uv s u)) pnet0) in H.
+  pose proof (make_pyvis_ids s u) as IDS.
+  destruct (other_some_inv _ _ _ _ Ho) as [[E1 E2]|[E1 E2]].
+  - eapply (pv_loop_joined s (uv s u) ND i vi j vj e); eauto. now apply enum_from_In0.
+  - apply joined_sym. eapply (pv_loop_joined s (uv s u) ND j vj i vi e); eauto.
+    + apply AS. unfold lv1 in E1. eapply nth_error_In; eauto.
+    + now apply enum_from_In0.
+Qed.
+Theorem pyvis_every_internal_link_joined s u n :
+  link_inv s -> NoDup (uv s u) -> make_pyvis_net s u = VOk n ->
+  forall i j vi vj e, nth_error (uv s u) i = Some vi -> nth_error (uv s u) j = Some vj ->
+    In e (vl s vi) -> other s e (Some vi) = OVal (Some vj) ->
+    exists a, In (i, j, a) (pedges n) \/ In (j, i, a) (pedges n).
+Proof. intros [AS _]. now apply pyvis_every_internal_link_joined_assoc. Qed.
+
+Theorem pyvis_directed_count s u n : NoDup (uv s u) -> make_pyvis_net s u = VOk n ->
+  forall i j vi vj, nth_error (uv s u) i = Some vi -> nth_error (uv s u) j = Some vj ->
+  count_occ edge_dec (pedges n) (i, j, true) = length (filter (dir_link s vi vj) (vl s vi)).
+Proof.
+  intros ND H i j vi vj Hi Hj.
+  unfold make_pyvis_net in H. fold (add_nodes (enum_from 0 (uv s u)) pnet0) in H.
+  pose proof (make_pyvis_ids s u) as IDS.
+  rewrite (pv_loop_count s (uv s u) ND i j vi vj Hi Hj (enum_from 0 (uv s u))
+             (fun i v => proj1 (enum_from_In0 _ i v)) _ _ IDS H).
+  destruct (add_nodes_gen (uv s u) 0 pnet0) as (_ & B & _); [intros ? []|]. rewrite B. cbn [pedges pnet0 count_occ].
+  rewrite (sum_g_at s i vi vj (uv s u) 0); [reflexivity | lia | now rewrite Nat.sub_0_r].
+Qed.
+
+(* ============================================================================================ *)
+(* Part U — PlantUML                                                                            *)
+(* ============================================================================================ *)
+Lemma mro_nodup c : NoDup (mro c).
+Proof.
+  destruct c as [[]| | | | |]; cbn;
+    repeat (constructor; [cbn; intuition discriminate|]); constructor.
+Qed.
+
+Lemma find_split {A} (f : A -> bool) l x : find f l = Some x ->
+  exists pre post, l = pre ++ x :: post /\ f x = true /\ forall y, In y pre -> f y = false.
+Proof.
+  induction l as [|y l IH]; cbn; [discriminate|].
+  destruct (f y) eqn:E.
+  - intros [= ->]. exists [], l. split; [reflexivity|]. split; [exact E|]. intros ? [].
+  - intro H. destruct (IH H) as (pre & post & -> & Hx & Hp). exists (y :: pre), post.
+    split; [reflexivity|]. split; [exact Hx|]. intros z [<-|Hz]; auto.
+Qed.
+Lemma nodup_split_unique {A} (x : A) pre post pre' post' :
+  NoDup (pre ++ x :: post) -> pre ++ x :: post = pre' ++ x :: post' -> pre = pre'.
+Proof.
+  revert pre'. induction pre as [|a pre IH]; intros pre' ND E.
+  - destruct pre' as [|b pre']; [reflexivity|]. cbn in E, ND. injection E as <- E'.
+    apply NoDup_cons_iff in ND. destruct ND as [Hn _]. exfalso. apply Hn. rewrite E'.
+    apply in_or_app. right. now left.
+  - cbn in ND. apply NoDup_cons_iff in ND. destruct ND as [Hn ND].
+    destruct pre' as [|b pre']; cbn in E; injection E as E0 E'.
+    + subst a. exfalso. apply Hn. apply in_or_app. right. now left.
+    + subst b. f_equal. now apply IH.
+Qed.
+
+Theorem resolve_spec conf c c' : resolve conf c = Some c' ->
+  In c' (mro c) /\ conf c' = true /\
+  forall c0 pre post, mro c = pre ++ c' :: post -> In c0 pre -> conf c0 = false.
+Proof.
+  unfold resolve. intro H. destruct (find_some _ _ H) as [Hin Hc]. split; [exact Hin|]. split; [exact Hc|].
+  destruct (find_split _ _ _ H) as (pre0 & post0 & E & _ & Hp).
+  intros c0 pre post E' Hc0. apply Hp.
+  assert (pre0 = pre); [|now subst].
+  apply (nodup_split_unique c' pre0 post0 pre post); [rewrite <- E; apply mro_nodup | congruence].
+Qed.
+Lemma resolve_none conf c : resolve conf c = None <-> forall c0, In c0 (mro c) -> conf c0 = false.
+Proof.
+  unfold resolve. split; [apply find_none|]. intro H.
+  destruct (find conf (mro c)) as [x|] eqn:E; [|reflexivity].
+  apply find_some in E. destruct E as [E1 E2]. rewrite (H x E1) in E2. discriminate.
+Qed.
+
+Lemma puml_empty conf s u : uv s u = [] -> render_puml conf s u = UOk None.
+Proof. unfold render_puml. now intros ->. Qed.
+
+Lemma puml_decls_spec conf s vs : forall ds, puml_decls conf s vs = Some ds ->
+  map d_vertex ds = vs /\ forall x, In x ds -> resolve conf (PK (kd s (d_vertex x))) = Some (d_class x).
+Proof.
+  induction vs as [|v vs IH]; intros ds H; cbn [puml_decls] in H.
+  - inversion H; subst. split; [reflexivity | intros ? []].
+  - destruct (resolve conf (PK (kd s v))) as [c|] eqn:R; [|discriminate].
+    destruct (puml_decls conf s vs) as [ds0|]; [|discriminate]. inversion H; subst.
+    destruct (IH ds0 eq_refl) as [A B]. split; [cbn; now rewrite A|].
+    intros x [<-|Hx]; [exact R | now apply B].
+Qed.
+Lemma puml_decls_none conf s vs : puml_decls conf s vs = None <->
+  exists v, In v vs /\ resolve conf (PK (kd s v)) = None.
+Proof.
+  induction vs as [|v vs IH]; cbn [puml_decls In].
+  - split; [discriminate | intros (? & [] & _)].
+  - destruct (resolve conf (PK (kd s v))) as [c|] eqn:R.
+    + destruct (puml_decls conf s vs) as [ds0|].
+      * split; [discriminate|]. intros (w & [<-|Hw] & Hr); [congruence|].
+        assert (X : Some ds0 = None) by (apply IH; eauto). discriminate.
+      * split; [|reflexivity]. intros _. destruct (proj1 IH eq_refl) as (w & Hw & Hr). exists w. auto.
+    + split; [|reflexivity]. intros _. exists v. auto.
+Qed.
+
+Lemma puml_rel_spec conf s l x : puml_rel conf s l = inl x ->
+  r_link x = l /\ lv1 s l = Some (Some (r_v1 x)) /\ lv2 s l = Some (Some (r_v2 x)) /\
+  resolve conf (PK (kd s l)) = Some (r_class x) /\
+  resolve conf (PK (kd s (r_v1 x))) = Some (r_c1 x) /\ resolve conf (PK (kd s (r_v2 x))) = Some (r_c2 x).
+Proof.
+  unfold puml_rel. destruct (resolve conf (PK (kd s l))) as [c|]; [|discriminate].
+  destruct (lv1 s l) as [a|]; [|discriminate]. destruct (lv2 s l) as [b|]; [|discriminate].
+  destruct (resolve conf (ocls s a)) as [c1|] eqn:R1; [|discriminate].
+  destruct (resolve conf (ocls s b)) as [c2|] eqn:R2; [|discriminate].
+  destruct a as [a|]; [|discriminate]. destruct b as [b|]; [|discriminate].
+  intros [= <-]. cbn. repeat split; auto.
+Qed.
+Lemma puml_rel_unconfigured conf s l : resolve conf (PK (kd s l)) = None -> puml_rel conf s l = inr ValueError.
+Proof. unfold puml_rel. now intros ->. Qed.
+
+Lemma puml_rels_spec conf s ls : forall rs, puml_rels conf s ls = inl rs ->
+  map r_link rs = ls /\ Forall2 (fun l x => puml_rel conf s l = inl x) ls rs.
+Proof.
+  induction ls as [|l ls IH]; intros rs H; cbn [puml_rels] in H.
+  - inversion H; subst. split; [reflexivity | constructor].
+  - destruct (puml_rel conf s l) as [x|e] eqn:R; [|discriminate].
+    destruct (puml_rels conf s ls) as [xs|e]; [|discriminate]. inversion H; subst.
+    destruct (IH xs eq_refl) as [A B]. split.
+    + cbn. f_equal; [|exact A]. now apply puml_rel_spec in R.
+    + now constructor.
+Qed.
+Lemma puml_rels_in conf s ls rs x : puml_rels conf s ls = inl rs -> In x rs -> puml_rel conf s (r_link x) = inl x.
+Proof.
+  intros H Hx. apply puml_rels_spec in H. destruct H as [_ F].
+  induction F as [|l y ls rs Hy F IH]; [destruct Hx|].
+  destruct Hx as [<-|Hx]; [|now apply IH].
+  pose proof (puml_rel_spec _ _ _ _ Hy) as (-> & _). exact Hy.
+Qed.
+Lemma puml_rels_ok_iff conf s ls : (exists rs, puml_rels conf s ls = inl rs) <->
+  forall l, In l ls -> exists x, puml_rel conf s l = inl x.
+Proof.
+  induction ls as [|l ls IH]; cbn [puml_rels In].
+  - split; [intros _ ? [] | intros _; now exists []].
+  - destruct (puml_rel conf s l) as [x|e] eqn:R.
+    + destruct (puml_rels conf s ls) as [xs|e'].
+      * split; [|intros _; now eexists]. intros _ l0 [<-|H0]; [now exists x|].
+        apply (proj1 IH); [now exists xs | exact H0].
+      * split; [intros [rs H]; discriminate|]. intro H.
+        destruct (proj2 IH) as [rs Hrs]; [intros; apply H; now right | discriminate].
+    + split; [intros [rs H]; discriminate|]. intro H. destruct (H l (or_introl eq_refl)) as [x Hx]. congruence.
+Qed.
+Lemma puml_rels_flat conf s ls : forall rs, puml_rels conf s ls = inl rs ->
+  rs = flat_map (fun l => match puml_rel conf s l with inl x => [x] | inr _ => [] end) ls.
+Proof.
+  induction ls as [|l ls IH]; intros rs H; cbn [puml_rels] in H.
+  - now inversion H.
+  - destruct (puml_rel conf s l) as [x|e] eqn:R; [|discriminate].
+    destruct (puml_rels conf s ls) as [xs|e]; [|discriminate]. inversion H; subst.
+    cbn [flat_map]. rewrite R. cbn [app]. f_equal. now apply IH.
+Qed.
+
+Lemma member_links_In s vs l : In l (member_links s vs) <-> exists m, In m vs /\ In l (vl s m).
+Proof.
+  unfold member_links. rewrite dedup_In, in_flat_map. tauto.
+Qed.
+Lemma member_links_NoDup s vs : NoDup (member_links s vs).
+Proof. apply dedup_NoDup. Qed.
+
+Lemma render_puml_ok_inv conf s u d : render_puml conf s u = UOk (Some d) ->
+  uv s u <> [] /\ puml_decls conf s (uv s u) = Some (decls d) /\
+  puml_rels conf s (member_links s (uv s u)) = inl (rels d).
+Proof.
+  unfold render_puml. destruct (uv s u) as [|v0 vs] eqn:EU; [discriminate|].
+  destruct (puml_decls conf s (v0 :: vs)) as [ds|]; [|discriminate].
+  destruct (puml_rels conf s (member_links s (v0 :: vs))) as [rs|e]; [|discriminate].
+  intros [= <-]. cbn. split; [discriminate|]. split; reflexivity.
+Qed.
+
+Theorem puml_decls_exact conf s u d : render_puml conf s u = UOk (Some d) ->
+  map d_vertex (decls d) = uv s u /\
+  forall x, In x (decls d) -> resolve conf (PK (kd s (d_vertex x))) = Some (d_class x).
+Proof. intro H. apply render_puml_ok_inv in H. destruct H as (_ & H & _). now apply puml_decls_spec. Qed.
+
+Theorem puml_rels_exact conf s u d : render_puml conf s u = UOk (Some d) ->
+  map r_link (rels d) = member_links s (uv s u) /\ NoDup (map r_link (rels d)) /\
+  forall x, In x (rels d) ->
+    lv1 s (r_link x) = Some (Some (r_v1 x)) /\ lv2 s (r_link x) = Some (Some (r_v2 x)) /\
+    resolve conf (PK (kd s (r_link x))) = Some (r_class x).
+Proof.
+  intro H. apply render_puml_ok_inv in H. destruct H as (_ & _ & H).
+  pose proof (puml_rels_spec _ _ _ _ H) as [A _]. split; [exact A|]. split; [rewrite A; apply member_links_NoDup|].
+  intros x Hx. pose proof (puml_rels_in _ _ _ _ _ H Hx) as R. apply puml_rel_spec in R. tauto.
+Qed.
+(* the end classes of a relation are the nearest configured classes of its two ends *)
+Theorem puml_rels_end_classes conf s u d : render_puml conf s u = UOk (Some d) ->
+  forall x, In x (rels d) ->
+    resolve conf (PK (kd s (r_v1 x))) = Some (r_c1 x) /\ resolve conf (PK (kd s (r_v2 x))) = Some (r_c2 x).
+Proof.
+  intro H. apply render_puml_ok_inv in H. destruct H as (_ & _ & H).
+  intros x Hx. pose proof (puml_rels_in _ _ _ _ _ H Hx) as R. apply puml_rel_spec in R. tauto.
+Qed.
+Theorem puml_rels_real conf s u d : render_puml conf s u = UOk (Some d) ->
+  forall x, In x (rels d) -> exists m, In m (uv s u) /\ In (r_link x) (vl s m).
+Proof.
+  intros H x Hx. apply (puml_rels_exact conf) in H. destruct H as (A & _).
+  apply member_links_In. rewrite <- A. now apply in_map.
+Qed.
+
+Lemma nodup_map_unique {A B} (f : A -> B) l x y : NoDup (map f l) -> In x l -> In y l -> f x = f y -> x = y.
+Proof.
+  induction l as [|a l IH]; intros ND Hx Hy E; [destruct Hx|].
+  cbn in ND. inversion ND as [|? ? Hn ND']; subst.
+  destruct Hx as [->|Hx], Hy as [->|Hy]; auto.
+  - exfalso. apply Hn. rewrite E. now apply in_map.
+  - exfalso. apply Hn. rewrite <- E. now apply in_map.
+Qed.
+
+Theorem puml_listed_link_once conf s u d : render_puml conf s u = UOk (Some d) ->
+  forall l a, In a (uv s u) -> In l (vl s a) -> exists! x, In x (rels d) /\ r_link x = l.
+Proof.
+  intros H l a Ha Hl. apply puml_rels_exact in H. destruct H as (A & ND & _).
+  assert (Hin : In l (map r_link (rels d))) by (rewrite A; apply member_links_In; eauto).
+  apply in_map_iff in Hin. destruct Hin as (x & Hx & Hxin). exists x. split; [auto|].
+  intros y [Hy Ey]. eapply nodup_map_unique; eauto. congruence.
+Qed.
+Theorem puml_internal_link_once conf s u d : render_puml conf s u = UOk (Some d) ->
+  forall l a b, lv s l = [Some a; Some b] -> In a (uv s u) -> In l (vl s a) ->
+  exists! x, In x (rels d) /\ r_link x = l.
+Proof. intros H l a b _. now apply (puml_listed_link_once conf s u d H). Qed.
+Theorem puml_internal_link_ends conf s u d : render_puml conf s u = UOk (Some d) ->
+  forall l a b x, lv s l = [Some a; Some b] -> In x (rels d) -> r_link x = l -> r_v1 x = a /\ r_v2 x = b.
+Proof.
+  intros H l a b x L Hx E. apply puml_rels_exact in H. destruct H as (_ & _ & H).
+  destruct (H x Hx) as (H1 & H2 & _). rewrite E in H1, H2. unfold lv1, lv2 in *. rewrite L in H1, H2.
+  cbn in H1, H2. split; congruence.
+Qed.
+Theorem puml_internal_link_count conf s u d : render_puml conf s u = UOk (Some d) ->
+  forall l a, In a (uv s u) -> In l (vl s a) -> count_occ Nat.eq_dec (map r_link (rels d)) l = 1.
+Proof.
+  intros H l a Ha Hl. apply puml_rels_exact in H. destruct H as (A & ND & _).
+  assert (Hin : In l (map r_link (rels d))) by (rewrite A; apply member_links_In; eauto).
+  pose proof (proj1 (NoDup_count_occ Nat.eq_dec _) ND l). apply (count_occ_In Nat.eq_dec) in Hin. lia.
+Qed.
+
+(* U5: the order in which the set of links is iterated only permutes the relations *)
+Theorem member_links_perm conf s ls ls' : Permutation ls' ls ->
+  ((exists rs', puml_rels conf s ls' = inl rs') <-> (exists rs, puml_rels conf s ls = inl rs)) /\
+  forall rs rs', puml_rels conf s ls = inl rs -> puml_rels conf s ls' = inl rs' -> Permutation rs' rs.
+Proof.
+  intro P. split.
+  - rewrite !puml_rels_ok_iff. split; intros H l Hl; apply H.
+    + eapply Permutation_in; [apply Permutation_sym|]; eauto.
+    + eapply Permutation_in; eauto.
+  - intros rs rs' H H'. rewrite (puml_rels_flat _ _ _ _ H), (puml_rels_flat _ _ _ _ H').
+    now apply Permutation_flat_map.
+Qed.
+
+(* U6: the default option table *)
+Definition conf0 (c : pcls) : bool := match c with PK KVertex | PK KDir | PK KUnd => true | _ => false end.
+Example resolve_conf0_dirsub : resolve conf0 (PK KDirSub) = Some (PK KDir). Proof. reflexivity. Qed.
+Example resolve_conf0_universe : resolve conf0 (PK KUniverse) = Some (PK KVertex). Proof. reflexivity. Qed.
+Example resolve_conf0_vertexsub : resolve conf0 (PK KVertexSub) = Some (PK KVertex). Proof. reflexivity. Qed.
+Example resolve_conf0_undsub : resolve conf0 (PK KUndSub) = Some (PK KUnd). Proof. reflexivity. Qed.
+Example resolve_conf0_other : resolve conf0 (PK KOther) = None. Proof. reflexivity. Qed.
+
+Theorem puml_unconfigured_link_raises conf s u m l :
+  In m (uv s u) -> In l (vl s m) -> resolve conf (PK (kd s l)) = None ->
+  exists e, render_puml conf s u = UErr e.
+Proof.
+  intros Hm Hl R. destruct (render_puml conf s u) as [[d|]|e] eqn:E; [| |now exists e]; exfalso.
+  - pose proof (puml_listed_link_once _ _ _ _ E l m Hm Hl) as (x & [Hx Ex] & _).
+    apply puml_rels_exact in E. destruct E as (_ & _ & E). destruct (E x Hx) as (_ & _ & R'). congruence.
+  - unfold render_puml in E. destruct (uv s u) as [|v0 vs]; [destruct Hm|].
+    destruct (puml_decls conf s (v0 :: vs)); [|discriminate].
+    destruct (puml_rels conf s (member_links s (v0 :: vs))); discriminate.
+Qed.
+Theorem puml_unconfigured_vertex_raises conf s u m :
+  In m (uv s u) -> resolve conf (PK (kd s m)) = None -> render_puml conf s u = UErr ValueError.
+Proof.
+  intros Hm R. unfold render_puml. destruct (uv s u) as [|v0 vs] eqn:EU; [destruct Hm|].
+  replace (puml_decls conf s (v0 :: vs)) with (@None (list pdecl)); [reflexivity|].
+  symmetry. apply puml_decls_none. eauto.
+Qed.
+Corollary puml_other_link_raises s u m l :
+  In m (uv s u) -> In l (vl s m) -> kd s l = KOther -> exists e, render_puml conf0 s u = UErr e.
+Proof. intros Hm Hl K. apply (puml_unconfigured_link_raises conf0 s u m l Hm Hl). now rewrite K. Qed.
+
+(* ============================================================================================ *)
+(* reachable states: the hypotheses of Part V hold after any history of API calls               *)
+(* ============================================================================================ *)
+Lemma reachable_members_nodup ops u : NoDup (uv (run ops empty) u).
+Proof. apply (proj1 (proj2 (uni_inv_reachable ops))). Qed.
+Corollary pyvis_reachable ops u n : let s := run ops empty in
+  make_pyvis_net s u = VOk n ->
+  pnodes n = enum_from 0 (uv s u) /\
+  (forall i j arr, In (i, j, arr) (pedges n) ->
+     exists vi vj e, nth_error (uv s u) i = Some vi /\ nth_error (uv s u) j = Some vj /\
+       In e (vl s vi) /\ arr = is_directed (kd s e) /\ lv1 s e = Some (Some vi) /\ lv2 s e = Some (Some vj)) /\
+  (forall i j vi vj e, nth_error (uv s u) i = Some vi -> nth_error (uv s u) j = Some vj ->
+     In e (vl s vi) -> other s e (Some vi) = OVal (Some vj) ->
+     exists a, In (i, j, a) (pedges n) \/ In (j, i, a) (pedges n)) /\
+  (forall i j vi vj, nth_error (uv s u) i = Some vi -> nth_error (uv s u) j = Some vj ->
+     count_occ edge_dec (pedges n) (i, j, true) = length (filter (dir_link s vi vj) (vl s vi))).
+Proof.
+  intros s H. pose proof (reachable_members_nodup ops u) as ND. pose proof (link_inv_reachable ops) as LI.
+  split; [now apply pyvis_nodes_gen|]. split; [now apply pyvis_edges_oriented|].
+  split; [now apply pyvis_every_internal_link_joined | now apply pyvis_directed_count].
+Qed.
+
+(* ============================================================================================ *)
+(* non-vacuity: two vertices, a directed link 0->1, an undirected link 1-0, a directed          *)
+(* self-loop 0->0, all in universe 5                                                            *)
+(* ============================================================================================ *)
+Definition ex_state : state :=
+  run [NewVertex false [] []; NewVertex false [] []; NewEdge KDir (Some 0) (Some 1);
+       NewEdge KUnd (Some 1) (Some 0); NewEdge KDir (Some 0) (Some 0); NewUniverse [0; 1] None] empty.
+Example render_example :
+  uv ex_state 5 = [0; 1] /\ vl ex_state 0 = [2; 3; 4] /\ vl ex_state 1 = [2; 3] /\
+  basic_render std_filt std_r None ex_state 5 =
+    POk (Some ("v0 -> v1, v1, v0" ++ newline ++ "v1 -> v0")%string) /\
+  basic_render std_filt std_r (Some std_key) ex_state 5 =
+    POk (Some ("v0 -> v0, v1, v1" ++ newline ++ "v1 -> v0")%string) /\
+  make_pyvis_net ex_state 5 =
+    VOk {| pnodes := [(0, 0); (1, 1)]; pedges := [(0, 1, true); (0, 0, true)]; pdirected := false |} /\
+  (exists d, render_puml conf0 ex_state 5 = UOk (Some d) /\
+     map (fun x => (d_vertex x, d_class x)) (decls d) = [(0, PK KVertex); (1, PK KVertex)] /\
+     map (fun x => (r_link x, r_v1 x, r_v2 x, r_class x)) (rels d) =
+       [(2, 0, 1, PK KDir); (3, 1, 0, PK KUnd); (4, 0, 0, PK KDir)]) /\
+  basic_render std_filt std_r None ex_state 0 = POk None /\
+  render_puml conf0 ex_state 0 = UOk None.
+Proof. vm_compute. repeat split. eexists. repeat split. Qed.
+(* the hypotheses of the conditional theorems hold in the example *)
+Example render_example_hyps : NoDup (uv ex_state 5) /\ link_inv ex_state.
+Proof. split; [apply reachable_members_nodup | apply link_inv_reachable]. Qed.
+
+Print Assumptions basic_render_empty.
+Print Assumptions basic_render_lines.
+Print Assumptions isolated_vertex_line.
+Print Assumptions pinned_line_eats_arrow.
+Print Assumptions pinned_line_ok_when_neighbours.
+Print Assumptions sort_by_permutation.
+Print Assumptions sort_by_sorted.
+Print Assumptions sort_by_strongly_sorted.
+Print Assumptions sort_by_stable.
+Print Assumptions basic_render_error.
+Print Assumptions basic_render_error_iff.
+Print Assumptions basic_render_error_some_iff.
+Print Assumptions pyvis_nodes.
+Print Assumptions pyvis_edges_oriented.
+Print Assumptions pyvis_edges_are_real.
+Print Assumptions pyvis_no_outside_vertex.
+Print Assumptions pyvis_every_internal_link_joined.
+Print Assumptions pyvis_directed_count.
+Print Assumptions pyvis_reachable.
+Print Assumptions puml_empty.
+Print Assumptions resolve_spec.
+Print Assumptions puml_decls_exact.
+Print Assumptions puml_rels_exact.
+Print Assumptions puml_rels_end_classes.
+Print Assumptions puml_rels_real.
+Print Assumptions puml_listed_link_once.
+Print Assumptions puml_internal_link_once.
+Print Assumptions puml_internal_link_ends.
+Print Assumptions puml_internal_link_count.
+Print Assumptions member_links_perm.
+Print Assumptions resolve_conf0_dirsub.
+Print Assumptions resolve_conf0_universe.
+Print Assumptions resolve_conf0_other.
+Print Assumptions puml_unconfigured_link_raises.
+Print Assumptions puml_unconfigured_vertex_raises.
+Print Assumptions puml_other_link_raises.
+Print Assumptions render_example.
+Print Assumptions render_example_hyps.
